@@ -30,6 +30,8 @@ echo "RESULT demo-unchanged=$A demo-patched=$B existing-tests=$C"
 if [ $A -eq 0 ] && [ $B -ne 0 ] && [ $C -eq 0 ]; then
   D=/verif/seeded/$ID-$SLUG; mkdir -p $D
   cp $SRC/patch.diff $D/patch.diff; cp $SRC/$DEMO $D/; cp $SRC/README.md $D/README.agent.md 2>/dev/null
+  echo "== my check on the unchanged tree (a detection only counts next to a passing baseline)"
+  (VERIF_EVIDENCE_DIR=/verif/work/selftest/evidence VERIF_REPLAY_DIR=/verif/work/selftest/replays ./check $ID quick 2>&1 | tail -1 | cut -c1-200; echo "baseline-exit=${PIPESTATUS[0]}")
   echo "== my check against it"
   git -C /repo apply $D/patch.diff && (VERIF_EVIDENCE_DIR=/verif/work/selftest/evidence VERIF_REPLAY_DIR=/verif/work/selftest/replays ./check $ID quick 2>&1 | grep -v "^\[driver\] built" | tail -3 | cut -c1-300; echo "check-exit=${PIPESTATUS[0]}")
   git -C /repo checkout -- .
